@@ -511,3 +511,120 @@ def render_sdl(desc, descriptions=None):
     for name, members in desc.unions.items():
         out.append(f"union {name} = " + " | ".join(members))
     return "\n\n".join(out) + "\n"
+
+
+# ------------------------------------------------------------------ decorated SDL (C16, C19)
+
+DESCRIPTIONS = [
+    "plain description", 'with "double quotes"', "back\\slash and \\n literal", "unicode żółć 日本 😀",
+    "multi\nline\ndescription", "  leading and trailing  ", "triple \"\"\" inside", "tab\there", "# hash", "'single'",
+    "ends with quote\"", "",
+]
+
+
+def gql_description(d, text):
+    if "\n" in text or d.bool(0.3):
+        body = text.replace('"""', '\\"""')
+        if body.endswith('"') or body.endswith("\\"):
+            body += " "
+        return '"""\n' + body + '\n"""'
+    return gql_string(text)
+
+
+def render_sdl_rich(d, desc, *, deprecations=True, directives=True, descriptions=True, extend=True):
+    """SDL with descriptions, deprecations, custom directives, specifiedBy, schema description, extend type."""
+    out = []
+
+    def descr(indent=""):
+        if descriptions and d.bool(0.3):
+            text = d.choice(DESCRIPTIONS)
+            if text == "" and not d.enabled("sdl.empty_description"):
+                text = "plain description"
+            d.tag("sdl.description")
+            if "\n" in text:
+                d.tag("sdl.description_multiline")
+            return indent + gql_description(d, text).replace("\n", "\n" + indent) + "\n"
+        return ""
+
+    def depr(optional=True):
+        if deprecations and optional and d.bool(0.15):
+            d.tag("sdl.deprecated")
+            if d.bool(0.5):
+                return " @deprecated"
+            return " @deprecated(reason: %s)" % gql_string(d.choice(["use other", 'say "no"', "żółć", "back\\slash", ""]))
+        return ""
+
+    custom_root = desc.query != "Query" or (desc.mutation and desc.mutation != "Mutation") or (
+        desc.subscription and desc.subscription != "Subscription")
+    if custom_root or (descriptions and d.bool(0.3)):
+        roots = [f"query: {desc.query}"]
+        if desc.mutation:
+            roots.append(f"mutation: {desc.mutation}")
+        if desc.subscription:
+            roots.append(f"subscription: {desc.subscription}")
+        sd = ""
+        if descriptions and d.bool(0.5):
+            sd = gql_description(d, d.choice(["schema description", "multi\nline schema"])) + "\n"
+            d.tag("sdl.schema_description")
+        out.append(sd + "schema { " + " ".join(roots) + " }")
+    if directives:
+        locs_t = ["FIELD_DEFINITION", "OBJECT", "INTERFACE", "UNION", "ENUM", "ENUM_VALUE", "INPUT_OBJECT",
+                  "INPUT_FIELD_DEFINITION", "ARGUMENT_DEFINITION", "SCALAR", "SCHEMA"]
+        locs_e = ["QUERY", "MUTATION", "FIELD", "FRAGMENT_DEFINITION", "FRAGMENT_SPREAD", "INLINE_FRAGMENT", "VARIABLE_DEFINITION"]
+        for i in range(d.int(0, 2)):
+            name = ["tag", "auth", "cost"][i]
+            locs = d.sample(locs_t + locs_e, d.int(1, 4))
+            args = []
+            in_leaf = BUILTIN_SCALARS + list(desc.enums) + desc.scalars + list(desc.inputs)
+            for an in pick_names(d, d.int(0, 3), set(), [(1, ["name", "weights", "mode", "cfg", "flag", "ids"])]):
+                at = d.choice(WRAPPERS_IN).format(d.choice(in_leaf))
+                ad = None
+                if d.bool(0.6):
+                    ad, _k = gen_literal(d, desc, at, ctx="dirdefault", risky=False)
+                args.append(f"{descr()}{an}: {at}" + (f" = {ad}" if ad is not None else "") + depr(not at.endswith("!") or ad is not None))
+            rep = " repeatable" if d.bool(0.4) else ""
+            if rep:
+                d.tag("sdl.repeatable_directive")
+            out.append(f"{descr()}directive @{name}" + ("(" + ", ".join(args) + ")" if args else "") + rep + " on " + " | ".join(locs))
+            d.tag("sdl.custom_directive")
+    for s in desc.scalars:
+        sb = ""
+        if d.bool(0.4):
+            sb = ' @specifiedBy(url: "https://example.com/%s")' % s.lower()
+            d.tag("sdl.specified_by")
+        out.append(f"{descr()}scalar {s}{sb}")
+    for name, vals in desc.enums.items():
+        body = "\n".join(f"{descr('  ')}  {v}{depr()}" for v in vals)
+        out.append(f"{descr()}enum {name} {{\n{body}\n}}")
+    for name, fields in desc.inputs.items():
+        lines = []
+        for fn, ft, fd in fields:
+            lines.append(f"{descr('  ')}  {fn}: {ft}" + (f" = {fd}" if fd is not None else "") + depr(not ft.endswith("!") or fd is not None))
+        out.append(f"{descr()}input {name} {{\n" + "\n".join(lines) + "\n}")
+
+    def render_fields(fields):
+        lines = []
+        for f in fields:
+            args = ""
+            if f["args"]:
+                args = "(" + ", ".join(
+                    f"{an}: {at}" + (f" = {ad}" if ad is not None else "") + depr(not at.endswith("!") or ad is not None)
+                    for an, at, ad in f["args"]) + ")"
+            lines.append(f"{descr('  ')}  {f['name']}{args}: {f['type']}{depr()}")
+        return "\n".join(lines)
+
+    for name, it in desc.interfaces.items():
+        impl = (" implements " + " & ".join(it["implements"])) if it["implements"] else ""
+        out.append(f"{descr()}interface {name}{impl} {{\n{render_fields(it['fields'])}\n}}")
+    extensions = []
+    for name, ot in desc.objects.items():
+        impl = (" implements " + " & ".join(ot["implements"])) if ot["implements"] else ""
+        fields = ot["fields"]
+        if extend and len(fields) >= 2 and not ot["implements"] and d.bool(0.25):
+            extensions.append(f"extend type {name} {{\n{render_fields(fields[-1:])}\n}}")
+            fields = fields[:-1]
+            d.tag("sdl.extend_type")
+        out.append(f"{descr()}type {name}{impl} {{\n{render_fields(fields)}\n}}")
+    for name, members in desc.unions.items():
+        out.append(f"{descr()}union {name} = " + " | ".join(members))
+    return "\n\n".join(out + extensions) + "\n"
